@@ -339,7 +339,10 @@ def stale_reference_rule(prog, res):
                     ev = g.vertex_of.get(nid)
                     if ev is None or dv is None or ev not in g.reach([dv]):
                         continue
-                    later = [u for u in uses if g.vertex_of.get(u['id']) in g.reach([ev]) and u['id'] not in f.descendants(nid)]
+                    # the reference is re-bound each time its declaration is passed (loop bodies): only
+                    # uses reached from the growth without passing the declaration again see the old binding
+                    after = g.reach([ev], avoid={dv})
+                    later = [u for u in uses if g.vertex_of.get(u['id']) in after and u['id'] not in f.descendants(nid)]
                     if later:
                         bad = (e, later[0])
                         break
